@@ -1,0 +1,8 @@
+//go:build verif
+
+package generator
+
+// Hooks for the verification harness in /verif (built only with -tags verif; add-only).
+
+// VerifGenerateReadableSpec exposes generateReadableSpec.
+func VerifGenerateReadableSpec(b []byte) string { return generateReadableSpec(b) }
